@@ -56,6 +56,7 @@ class TranslateNode(Node, TranslatableTag):
     message_count_var = "count"
     message_context_var = "context"
     re_vars = re.compile(r"(?<!%)%\((\w+)\)s")
+    re_format = re.compile(r"%%|%\((\w+)\)s")
 
     def __init__(
         self,
@@ -256,12 +257,22 @@ class TranslateNode(Node, TranslatableTag):
         if autoescape:
             message_text = Markup(message_text)
 
+        # Message text is scanned from left to right. Literal percent signs were
+        # doubled by `TranslateTag.validate_message_block`, so `%%` must be consumed
+        # before looking for a placeholder, otherwise a variable that immediately
+        # follows a literal percent sign is missed.
         _vars = {
             k: to_liquid_string(context.resolve(k), autoescape=autoescape)
-            for k in self.re_vars.findall(message_text)
+            for k in self.re_format.findall(message_text)
+            if k
         }
 
-        return message_text % _vars
+        text = self.re_format.sub(
+            lambda match: _vars[match.group(1)] if match.group(1) else "%",
+            message_text,
+        )
+
+        return Markup(text) if autoescape else text
 
 
 class TranslateTag(Tag):
